@@ -833,8 +833,11 @@ fn main() {
             Some(op) => un(op, e),
             None => e.clone(),
         };
+        // quick: the iteration-like unary combinators only (inner: none / star / plus / optional;
+        // outer: star / plus / optional / at-most-2); thorough: all of UNARY in both positions
         let mut u_opts: Vec<Option<U>> = vec![None];
-        u_opts.extend(UNARY.iter().map(|u| Some(*u)));
+        let (inner_u, outer_u): (Vec<U>, Vec<U>) = if thorough { (UNARY.to_vec(), UNARY.to_vec()) } else { (vec![U::Star, U::Plus, U::Opt], vec![U::Star, U::Plus, U::Opt, U::AtMost2]) };
+        u_opts.extend(inner_u.iter().map(|u| Some(*u)));
         let mut spines: Vec<RefExpr> = vec![];
         for b1 in BINARY {
             for x in &ab {
@@ -855,8 +858,8 @@ fn main() {
         for (j, chunk) in spines.chunks(64).enumerate() {
             let mut v = vec![];
             for e in chunk {
-                for u2 in UNARY {
-                    v.push(un(u2, e));
+                for u2 in &outer_u {
+                    v.push(un(*u2, e));
                 }
             }
             cases.push((format!("d4-spine:{j}:{}", chunk[0].show()), v));
